@@ -43,7 +43,7 @@ META = {
     'ref': 'DESIGN.md section 5 C10',
 }
 
-PARAMS = ('a', 'b', 'n', 's', 'l', 'k')
+PARAMS = ('a', 'b', 'n', 's', 'l', 'k', 'z')
 LENGTH = {'s': ('minchars', 'maxchars'), 'l': ('minlen', 'maxlen'), 'k': ('minbytes', 'maxbytes')}   # limits = lengths
 UNITS = {'': 0, 'mm': 1, 'K': 2}
 VIS = {1: 'user', 2: 'advanced', 3: 'expert', 9: 'bogus'}
@@ -72,6 +72,7 @@ def _classes():
         s = Parameter('s', StringType(maxchars=8), default='x', readonly=False)
         l = Parameter('l', ArrayOf(FloatRange(), 0, 3), default=[], readonly=False)
         k = Parameter('k', BLOBType(0, 4), default=b'', readonly=False)
+        z = Parameter('z', FloatRange(0, 100), constant=3)
         a_limits = Limit()
 
         def _hw(self, *ev):
@@ -272,7 +273,7 @@ def project(obj, entries, node=False):
                     continue
                 val = _sized({'s': 'str', 'l': 'list', 'k': 'bytes'}[p], n)
             try:
-                if use_wrapper:
+                if use_wrapper and hasattr(obj, 'write_' + p):    # (a class level constant has no write wrapper)
                     getattr(obj, 'write_' + p)(val)
                 else:
                     obj.parameters[p].datatype.validate(val)
@@ -587,6 +588,10 @@ def _cmp_module(beh, got):
     if got['out'] != 'accepted':
         return None
     exp, st = beh['exp'], got['st']
+    for k, v in (exp['constant'] or {}).items():        # same order of clauses as ConfigRules.StateViol
+        if st['start'].get(k) != v:
+            return 'cache of a constant parameter = described constant', {'param': k, 'expected': v,
+                                                                          'observed': st['start'].get(k)}
     for field in ('start', 'lo', 'hi', 'unit', 'vis', 'group', 'constant', 'readonly', 'exported', 'probes', 'writes',
                   'mprops'):
         want = exp[field] or {}
